@@ -556,12 +556,11 @@ class FileStoragePacker(FileStorageFormatter):
                         is_dup = (
                             rpos and self._read_data_header(rpos).tid == h.tid)
                         if not is_dup:
-                            if h.oid not in self.gc.reachable:
-                                self.blob_removed.write(
-                                    binascii.hexlify(h.oid) + b'\n')
-                            else:
-                                self.blob_removed.write(
-                                    binascii.hexlify(h.oid + h.tid) + b'\n')
+                            # Name the revision, never the whole object:
+                            # the object may be written again after the
+                            # pack time and those files must stay.
+                            self.blob_removed.write(
+                                binascii.hexlify(h.oid + h.tid) + b'\n')
 
                 pos += h.recordlen()
                 continue
